@@ -307,11 +307,15 @@ StepAt(m) ==
     [] pc = "ClsConn" ->
          IF s.own THEN Park(Push([m EXCEPT !.s = ConnClose(s)], "cls"), "RelTest") ELSE ReturnFromClose(m)
     [] pc = "ShTest" ->
-         IF ~s.shutset \/ ("shutdown" \in Fixes /\ ~s.own) THEN Complete(m, "err:ValueError", "value")
+         IF "shutdown" \in Fixes THEN
+             \* repaired design: refused once the connection has been given back or the socket is gone, and the test
+             \* and the shutdown are one step (mutually exclusive with release_conn)
+             IF ~s.shutset \/ ~s.own \/ ~s.fdopen THEN Complete(m, "err:ValueError", "value")
+             ELSE Complete([m EXCEPT !.s.shut = TRUE, !.s.io = "shut"], "ok", "none")
+         ELSE IF ~s.shutset THEN Complete(m, "err:ValueError", "value")
          ELSE Park(m, "SockShut")
     [] pc = "SockShut" ->
-         IF ~s.fdopen THEN (IF "shutdown" \in Fixes THEN Complete(m, "err:ValueError", "value")     \* repaired: EBADF is translated
-                            ELSE Complete(m, "err:OSError", "raw"))
+         IF ~s.fdopen THEN Complete(m, "err:OSError", "raw")
          ELSE Complete([m EXCEPT !.s.shut = TRUE, !.s.io = "shut"], "ok", "none")
     [] pc = "Recv" ->
          LET m1 == IF s.kern = 1 THEN [m EXCEPT !.s.kern = 0, !.s.rcv2 = F2(s), !.s.io = "recv"]
@@ -430,11 +434,12 @@ ErrOk(o, t) == \/ o.errk[t] \in {"none", "urllib3"}
                \/ o.errk[t] = "interrupt" /\ o.nboom >= 1
 OnlyUrllib3Errors(o) == \A t \in Threads : ErrOk(o, t)
 InterruptsPropagate(o) == o.nint <= o.nboom /\ (Quiet(o) => o.nint = o.nboom)
-\* DisposalIdempotent: once one of release_conn / drain_conn / close has returned, nothing changes the pool any more
-\* and further disposal calls return normally
+\* DisposalIdempotent: the response never takes a slot back; once one of release_conn / drain_conn / close has returned
+\* and everybody is between calls, the response is detached and the slot is back; further disposal calls return normally
 DisposalIdempotent(o, o2) ==
-  o.ndisp >= 1 => /\ o2.slots = o.slots /\ o2.puts = o.puts
-                  /\ \A t \in Threads : (Completed(o, o2, t) /\ o2.op[t] \in DispOps) => o2.errk[t] = "none"
+  /\ o2.slots >= o.slots
+  /\ (Quiet(o2) /\ o2.ndisp >= 1 /\ o2.have) => (o2.slots = 1 /\ ~o2.own)
+  /\ \A t \in Threads : (Completed(o, o2, t) /\ o2.op[t] \in DispOps /\ o.ndisp >= 1) => o2.errk[t] = "none"
 \* ClosedIsStable
 ClosedIsStable(o, o2) == /\ (o.have /\ ~o.hfp) => ~o2.hfp
                          /\ ~o.own => ~o2.own
